@@ -180,6 +180,9 @@ impl MT202 {
             None
         };
 
+        // Reject anything left after the last field of the type
+        verify_parser_complete(&parser)?;
+
         Ok(MT202 {
             field_20,
             field_21,
